@@ -237,6 +237,87 @@ def ed_accepts_reachable_states(repo, rep, prims, models):
                         stmt=f"ed range-checks accumulator {p}")
 
 
+def attribute_probe_rule(repo, rep, prims):
+    """R4.12: `getattr(child, "name", default)` relies on the child answering an unknown name with AttributeError.  A primitive
+    whose __getattr__ ends in `self.__dict__[attr]` (Select forwards to its cut and then indexes its own dict) answers with
+    KeyError instead, which `getattr` with a default does not catch: the writer raises and no document is produced.  For every
+    probe in a toJsonFragment the classes that can still be the child at that point (those not excluded by an earlier failed
+    probe `getattr(child, n, None) is not None` of an attribute that is never None for them) must define the probed name."""
+    import hgsa.cfg as cfgmod
+    from ..resolve import attr_universe, instance_attr_stores
+    r12 = rep.rule("R4.12", "every attribute probe with a default in a writer is answered by each class that can be the child at that point", floor=15)
+    stores, _ = instance_attr_stores(repo)
+    fragile = {}
+    for k in prims:
+        ga = k.methods.get("__getattr__")
+        if ga is None or len(ga.params) < 2:
+            continue
+        sn, an = ga.params[0], ga.params[1]
+        for n in walk_local_stmt(ga.node):
+            if isinstance(n, ast.Subscript) and isinstance(n.ctx, ast.Load) and isinstance(n.slice, ast.Name) and n.slice.id == an and \
+                    ast.unparse(n.value) == f"{sn}.__dict__":
+                fragile[k.name] = k
+    if not fragile:
+        r12.ob(True, "no primitive answers unknown attributes with a non-AttributeError")
+        return
+    universe = {k.name: attr_universe(repo, k, stores) | set(k.methods) for k in prims}
+
+    def never_none(k, attr):
+        """every store `self.attr = V` / `out.attr = V` of the class assigns the result of a call (a wrapper object), never None or a bare parameter"""
+        vals = []
+        for m in k.methods.values():
+            for n in walk_local_stmt(m.node):
+                if isinstance(n, ast.Assign):
+                    for t in n.targets:
+                        if isinstance(t, ast.Attribute) and t.attr == attr and isinstance(t.value, ast.Name):
+                            vals.append(n.value)
+        return bool(vals) and all(isinstance(v, ast.Call) for v in vals)
+
+    for c in prims:
+        w = repo.own_method(c, "toJsonFragment")
+        g = cfgmod.build(w.node)
+
+        def probe_of(e):
+            if isinstance(e, ast.Call) and isinstance(e.func, ast.Name) and e.func.id == "getattr" and len(e.args) == 3 and \
+                    isinstance(e.args[1], ast.Constant) and isinstance(e.args[1].value, str):
+                return ast.unparse(e.args[0]), e.args[1].value
+            return None
+        tcd = g.transitive_control_deps()
+        for n in g.nodes:
+            if n.kind not in ("test", "stmt"):
+                continue
+            exprs = [n.ast] if n.kind == "test" else [x for x in ast.walk(n.ast) if isinstance(x, ast.Call)]
+            for e0 in exprs:
+                for e in ast.walk(e0):
+                    pr = probe_of(e)
+                    if pr is None:
+                        continue
+                    obj, name = pr
+                    if obj.split(".")[0].split("[")[0] == w.params[0] and "." not in obj and "[" not in obj:
+                        continue            # a probe on self
+                    # classes excluded by failed earlier probes on the same object that this node is control dependent on
+                    possible = dict(fragile)
+                    for (tid, lab) in tcd[n.id]:
+                        tn = g.nodes[tid]
+                        if tn.kind != "test" or lab != "F":
+                            continue
+                        t = tn.ast
+                        if isinstance(t, ast.Compare) and len(t.ops) == 1 and isinstance(t.ops[0], ast.IsNot) and isinstance(t.comparators[0], ast.Constant) \
+                                and t.comparators[0].value is None:
+                            p2 = probe_of(t.left)
+                            if p2 and p2[0] == obj:
+                                for kn, k in list(possible.items()):
+                                    if p2[1] in universe[kn] and never_none(k, p2[1]):
+                                        possible.pop(kn)          # for this class the earlier probe cannot have failed
+                    bad = [kn for kn in possible if name not in universe[kn]]
+                    r12.ob(not bad, f"{w.qualname}: getattr({obj}, {name!r}, ...)")
+                    if bad:
+                        rep.finding("R4.12", w, e, f"`{ast.unparse(e)[:70]}` is evaluated while `{obj}` may still be a {bad[0]}: {bad[0]} does not define "
+                                    f"`{name}`, and its __getattr__ answers an unknown name with `self.__dict__[attr]` - a KeyError, which getattr's "
+                                    f"default does not catch - so toJson of a {c.name} holding a {bad[0]} raises instead of producing a document",
+                                    stmt=f"probe {name} may hit {bad[0]}.__getattr__")
+
+
 def run(repo, rep, tier):
     rep.extra["explanation"] = (
         "Agreement analysis between each toJsonFragment (writer) and fromJsonFragment -> ed -> __init__ (reader) of the 19 "
@@ -273,6 +354,7 @@ def run(repo, rep, tier):
     rep.borrow(repo, "C06", {"R6.5": ("R4.9", "the name read from JSON is written onto a function object created for this container alone", 14)})
     integer_key_rule(repo, rep, prims)
     ed_accepts_reachable_states(repo, rep, prims, models)
+    attribute_probe_rule(repo, rep, prims)
     r7 = rep.rule("R4.7", "numbers written into serialised fields by _numpy are Python floats (float()/int() applied to numpy reductions)", floor=20)
     for c in prims:
         numpy_scalar_rule(repo, rep, r7, c, models[c.name])
